@@ -1,6 +1,6 @@
 (* C05 - numeric bounds and multipleOf are enforced exactly as stated.
    Statements only; every proof is `exact <lemma>`; Print Assumptions under each. *)
-From GJS Require Import Base Bounds BoundsP NumericP.
+From GJS Require Import Base Bounds BoundsP NumericP IntSize Regex Schema GoType Gen Exec Valid ExecP GenP CoreP.
 Open Scope Q_scope.
 
 (* NormalizeBounds + the comparison operators chosen by genBoundary accept exactly the
@@ -54,6 +54,43 @@ Proof. exact multiple_float_refuted_tolerance. Qed.
 Theorem C05_refuted_fractional_int_bound :
   exists b x, accept_numeric true None b (inject_Z x) = true /\ spec_numeric None b (inject_Z x) = false.
 Proof. exact numeric_int_refuted_fractional. Qed.
+
+(* the validator is attached whenever one of the five keywords is present, with the schema's own
+   constants, rounding to int64 for integer kinds, with the nil guard for pointer fields *)
+Theorem C05_attached_int : forall fname jn c b k nillable, has_bound_kw (c_mult c) b = true ->
+  field_validators fname jn c b (TInt k) nillable = [VNumeric fname jn nillable true (c_mult c) b].
+Proof. exact numeric_validator_attached_int. Qed.
+Print Assumptions C05_attached_int.
+Theorem C05_attached_float : forall fname jn c b nillable, has_bound_kw (c_mult c) b = true ->
+  field_validators fname jn c b TFloat nillable = [VNumeric fname jn nillable false (c_mult c) b].
+Proof. exact numeric_validator_attached_float. Qed.
+Print Assumptions C05_attached_float.
+
+(* absent or null optional values are never bound-checked *)
+Theorem C05_absent_or_null : forall dvf raw st fname jname rnd mult b, get_plain fname st = Some GNil ->
+  after_step dvf raw st (VNumeric fname jname true rnd mult b) = Ok st.
+Proof. exact vnumeric_nil. Qed.
+Print Assumptions C05_absent_or_null.
+
+(* end to end for a struct method (required: value field; optional / nullable: pointer field) *)
+Theorem C05_enforced_number : forall fmt_ok env f c0 name fs vs kv fl jn (nillable : bool) mult b n,
+  NoDup (map f_name fs) -> In fl fs -> f_addl fl = false -> f_name fl <> [] ->
+  f_ty fl = (if nillable then TPtr TFloat else TFloat) ->
+  lookup (f_json fl) kv = Some (JNum n) ->
+  In (VNumeric (f_name fl) jn nillable false mult b) vs -> (forall v', In v' vs -> touches (f_name fl) v' = false) ->
+  accept_numeric false mult b (nq n) = false ->
+  is_ok (dec fmt_ok env f (TStruct (c0 :: name) fs (Some vs)) (JObj kv)) = false.
+Proof. exact struct_enforces_number. Qed.
+Print Assumptions C05_enforced_number.
+Theorem C05_enforced_integer : forall fmt_ok env f c0 name fs vs kv fl jn (nillable : bool) mult b k z,
+  NoDup (map f_name fs) -> In fl fs -> f_addl fl = false -> f_name fl <> [] ->
+  f_ty fl = (if nillable then TPtr (TInt k) else TInt k) ->
+  lookup (f_json fl) kv = Some (JInt z) -> in_range k z = true ->
+  In (VNumeric (f_name fl) jn nillable true mult b) vs -> (forall v', In v' vs -> touches (f_name fl) v' = false) ->
+  accept_numeric true mult b (inject_Z z) = false ->
+  is_ok (dec fmt_ok env f (TStruct (c0 :: name) fs (Some vs)) (JObj kv)) = false.
+Proof. exact struct_enforces_integer. Qed.
+Print Assumptions C05_enforced_integer.
 
 (* non-vacuity: the hypotheses are met by non-trivial inputs *)
 Example C05_guard_int_inhabited :
